@@ -36,6 +36,14 @@ Theorem late_notification_relists_refuted :
     relist_risk E (init E) ops k = true.
 Proof. exact late_notification_relists_refuted_lemma. Qed.
 
+(* Since the repair of put_verified (a refused record is taken out of the read cache again): whatever
+   the history, crashes included, a key for which get returns a value is in the index, or a write of it
+   -- or the notification of that write's outcome -- is still pending. *)
+Theorem served_is_held_or_in_flight : forall E ops k v,
+  get E (run E ops (init E)) k = Some v ->
+  contains (run E ops (init E)) k = true \/ in_flight (run E ops (init E)) k = true.
+Proof. exact served_is_held_or_in_flight_lemma. Qed.
+
 (* file names determine keys: two keys never share a record file *)
 Theorem names_injective : forall a b, fname a = fname b -> a = b.
 Proof. exact fname_inj. Qed.
